@@ -34,19 +34,39 @@ def pool(plan, seed, off=0):
     return items
 
 
-def snap(v):
-    """type, text, ordered cells, exact canonical object graph (renderings and == are functions of it;
-    for an AnsiStr additionally the str payload).  A value that can no longer be read is a snapshot of its own."""
-    try:
-        if isinstance(v, AnsiStr):
-            t, c = model.alpha_codes(v._s)
-            return ('AnsiStr', t, tuple(c), model.canon(v._s), str.__str__(v))
-        t, c = model.alpha_codes(v)
-        return ('AnsiString', t, tuple(c), model.canon(v))
-    except env.HarnessError:
-        raise
-    except Exception as e:  # noqa
-        return ('unreadable', getattr(v, 'base_str', '?'), 'reading it raises %s: %s' % (type(e).__name__, e))
+def snap(v, deep=False):
+    """What a caller can observe: type, text, identity-renamed ordered cells, renderings, AnsiStr payload, plus
+    == against an independent deep copy taken now (compared again by snap_eq)."""
+    if deep:
+        fz = model.freeze_value(v)
+        return Snap(fz[0], fz[1], v)
+    return Snap(model.observe(v), None, v)
+
+
+class Snap:
+    """Compares equal to a later snapshot of the same object iff the observation is equal and the object still
+    == the deep copy taken at the time of the first snapshot."""
+
+    def __init__(self, obs, cp, obj):
+        self.obs, self.cp, self.obj = obs, cp, obj
+
+    def __eq__(self, other):
+        if not isinstance(other, Snap) or self.obs != other.obs:
+            return False
+        for a, b in ((self, other), (other, self)):
+            if a.cp is not None:
+                try:
+                    if not (b.obj == a.cp):
+                        return False
+                except Exception:  # noqa
+                    return False
+        return True
+
+    def __ne__(self, other):
+        return not self.__eq__(other)
+
+    def __getitem__(self, i):       # message formatting: s[1:3] -> text and cells
+        return self.obs[i]
 
 
 def explicit_values(seed):
@@ -163,7 +183,7 @@ def check_unary(h, name, args, kwargs, has_inplace, seed, twin=False):
         v = AnsiStr(v)
         if kwargs or name in ('copy',) or name.startswith('CTOR'):
             return []
-    s0 = snap(v)
+    s0 = snap(v, deep=True)
     try:
         r = do_unary(v, name, args, kwargs, seed)
     except Exception as e:  # noqa
@@ -191,7 +211,7 @@ def check_unary(h, name, args, kwargs, has_inplace, seed, twin=False):
             r2 = getattr(w, name)(*args, inplace=True, **kwargs)
             if r2 is not w:
                 bad.append(('inplace-identity', '%s with inplace=True did not return the receiver' % what))
-            elif snap(w)[1:] != snap(r)[1:] and (model.alpha_codes(w) != model.alpha_codes(r) or model.renderings(w) != model.renderings(r)):
+            elif model.alpha_codes(w) != model.alpha_codes(r) or model.renderings(w) != model.renderings(r):
                 bad.append(('inplace-differs', '%s: in-place result %r differs from the non-in-place result %r'
                             % (what, model.alpha_codes(w), model.alpha_codes(r))))
         except Exception as e:  # noqa
@@ -278,7 +298,7 @@ def check_binary(ha, hb, form, seed):
         raise env.HarnessError(form)
     what = form
     a, b = mk()
-    sa, sb = snap(a), (snap(b) if not isinstance(b, str) or isinstance(b, AnsiStr) else b)
+    sa, sb = snap(a, deep=True), (snap(b, deep=True) if not isinstance(b, str) or isinstance(b, AnsiStr) else b)
     try:
         r = run(a, b)
     except Exception as e:  # noqa
